@@ -176,6 +176,18 @@ def commitStatus (doWrite doRead : Bool) (wErr rErr : Int) : Int :=
   let status := 0
   if status = 0 then err else status
 
+/-- the REPAIRED req_commit (findings/patches/C11-F3-req_commit-status.diff): the status of each phase
+    is folded into `status` right after the phase, first error wins:
+
+    if (do_write > 0) { err = wait_getput(WR); if (status == NC_NOERR) status = err; }
+    if (do_read  > 0) { err = wait_getput(RD); if (status == NC_NOERR) status = err; }
+-/
+def commitStatusFixed (doWrite doRead : Bool) (wErr rErr : Int) : Int :=
+  let status := 0
+  let status := if doWrite then (if status = 0 then wErr else status) else status
+  let status := if doRead then (if status = 0 then rErr else status) else status
+  status
+
 /-- the C idiom `if (status == NC_NOERR) status = err;` -/
 def firstErr (status err : Int) : Int := if status = 0 then err else status
 
